@@ -12,6 +12,7 @@ import (
 )
 
 const knownSmallOrderIdentity = "C16-small-order-identity"
+const knownIdentityReflection = "C16-identity-reflection"
 
 type want int
 
@@ -28,7 +29,7 @@ var mitmScenarios = []string{
 	"relay", "relay",
 	"eph-bitflip", "eph-pad33", "eph-trunc31", "eph-empty",
 	"loworder-one", "loworder-both", "loworder-with-own-auth",
-	"reflect-eph-and-auth", "auth-swap-back", "auth-bitflip", "auth-drop", "auth-truncate",
+	"reflect-eph-and-auth", "mitm-reflect-victim-auth", "mitm-reflect-victim-auth", "relay-same-identity", "auth-swap-back", "auth-bitflip", "auth-drop", "auth-truncate",
 	"auth-replay-old-ciphertext", "auth-own-then-peer",
 	"mitm-own-key", "mitm-own-key", "mitm-own-key-split-auth", "mitm-relay-peer-sig", "mitm-replay-old-sig",
 	"mitm-third-party-key-own-sig", "mitm-garbage-sig", "mitm-sig-other-session", "mitm-short-key", "mitm-short-sig",
@@ -113,9 +114,9 @@ func TestHandshakeMITM(t *testing.T) {
 	rapid.Check(t, func(t *rapid.T) {
 		scen := rapid.SampledFrom(mitmScenarios).Draw(t, "scenario")
 		ia := rapid.IntRange(0, 5).Draw(t, "idA")
-		ib := rapid.IntRange(0, 5).Draw(t, "idB")
-		if scen != "relay" && ib == ia {
-			ib = (ia + 1) % 6
+		ib := (ia + 1 + rapid.IntRange(0, 4).Draw(t, "idB")) % 6 // a different identity
+		if scen == "relay-same-identity" {
+			ib = ia
 		}
 		eph := drawEphDistinct(t, 6, "eph") // 0,1: A,B; 2,3: adversary; 4,5: earlier session
 		side := rapid.IntRange(0, 1).Draw(t, "side") // which end is attacked where a scenario is one-sided
@@ -156,7 +157,7 @@ func TestHandshakeMITM(t *testing.T) {
 		}
 		detail := ""
 		switch scen {
-		case "relay", "auth-swap-back", "auth-bitflip", "auth-drop", "auth-truncate", "auth-replay-old-ciphertext", "auth-own-then-peer":
+		case "relay", "relay-same-identity", "auth-swap-back", "auth-bitflip", "auth-drop", "auth-truncate", "auth-replay-old-ciphertext", "auth-own-then-peer":
 			relayEph(0)
 			relayEph(1)
 		case "eph-bitflip":
@@ -336,6 +337,18 @@ func TestHandshakeMITM(t *testing.T) {
 			att.authIn = advAuth(side, pubOf(adv)[:rapid.IntRange(0, 31).Draw(t, "klen")], refSign(rawKey(adv), advSess[side].challenge[:]))
 			oth.authIn = ownAuth(1 - side)
 			att.want, oth.want = wantFail, wantAdv
+		case "relay-same-identity":
+			// two ends configured with the same long-term key: the peer does hold the key it presents, so success is
+			// allowed, but nothing obliges an implementation to accept a peer that presents the local identity
+			views[0].authIn, views[1].authIn = authOut[1], authOut[0]
+		case "mitm-reflect-victim-auth":
+			// the adversary holds NO long-term key: honest ephemeral exchange with its own ephemeral key, then it
+			// decrypts the victim's auth message and sends exactly that (victim's key, victim's signature over the
+			// session challenge, which is the same for both roles) back under the other direction's key
+			pub, sig := peerAuthPlain(side)
+			att.authIn = advAuth(side, pub, sig)
+			oth.authIn = ownAuth(1 - side)
+			att.want, oth.want = wantFail, wantAdv
 		case "mitm-small-order-identity":
 			// an identity nobody holds a private key for: a small-order ed25519 point, with a signature made of public
 			// constants (R small order, S = 0) chosen - by public computation only - so that it verifies
@@ -403,6 +416,17 @@ func TestHandshakeMITM(t *testing.T) {
 					continue
 				}
 				t.Fatalf("[%s] %s: handshake succeeded with RemotePubKey %x, a small-order ed25519 point: nobody holds a private key for it, the signature presented is a public constant (no proof of possession)", scen, name, got)
+			}
+			if bytes.Equal(got, pubOf(keys[i])) && !bytes.Equal(pubOf(v.peerKey), got) {
+				// finding C16-identity-reflection: the end authenticated its own identity although no other party of the
+				// session holds that key
+				if lib.IsKnown(knownIdentityReflection) {
+					lib.ObservedKnown(knownIdentityReflection)
+					lib.ExcludedByKnown(knownIdentityReflection)
+					outcome[i] = "own-identity-reflected"
+					continue
+				}
+				t.Fatalf("[%s] %s: handshake succeeded with RemotePubKey == %s's OWN key %x: its own auth message was sent back by a party that holds no long-term key (the challenge is the same for both roles)", scen, name, name, got[:6])
 			}
 			if v.want == wantFail {
 				t.Fatalf("[%s] %s: handshake succeeded (RemotePubKey %x) but had to fail", scen, name, got[:6])
